@@ -204,8 +204,12 @@ def run(ctx):
                 lit = n[2][1][0][1] if n[2][1] else None
                 kind = re.search(r"NewLineType::(\w+)", repr(n[3]))
                 seen[lit] = kind.group(1) if kind else None
+                # the matched literal decides alone: the success branch returns at once, with the cursor that literal produced
+                okb = n[3]
+                if not (okb[0] == "leaf" and okb[1] == "ret" and ("('cur', ('out', %d))" % n[1]) in repr(okb[2])):
+                    bad = "after matching %s the node goes on matching / does not return the cursor of that match" % lit
                 n = n[4]
-            if seen != want:
+            if seen != want and not bad:
                 bad = "literal -> kind table is %s, expected %s" % (seen, want)
         elif name in ("CharRange", "ANY") or name.startswith("unicode::"):
             if name.startswith("unicode::"):
